@@ -213,7 +213,7 @@ class TaintInterp:
         return V("node", lab | frozenset(extra) | gt)
 
     # ---- calls
-    def call_fn(self, fi: FuncInfo, args, kwargs=None, pc=E):
+    def call_fn(self, fi: FuncInfo, args, kwargs=None, pc=E, closure_env=None):
         if fi.fq in self.stack:
             return self.stack[fi.fq]          # provisional summary for recursion
         if len(self.stack) > self.MAX_DEPTH:
@@ -224,7 +224,7 @@ class TaintInterp:
         try:
             result = None
             for _round in range(2 if _is_recursive(self, fi) else 1):
-                env = {}
+                env = dict(closure_env) if closure_env else {}
                 fn = fi.node
                 params = [a.arg for a in fn.args.posonlyargs + fn.args.args]
                 defaults = fn.args.defaults
@@ -372,7 +372,13 @@ class TaintInterp:
             self.block(st.orelse, env, fr, pc)
             self.block(st.finalbody, env, fr, pc)
             return False
-        if isinstance(st, (ast.FunctionDef, ast.Import, ast.ImportFrom, ast.Global, ast.Nonlocal, ast.ClassDef)):
+        if isinstance(st, ast.FunctionDef):
+            # a function defined here: a value that sees the variables of this function
+            nested = fi.module.functions.get(f"{fi.qualname}.<locals>.{st.name}")
+            if nested is not None:
+                env[st.name] = V("func", x=("closure", nested, env))
+            return False
+        if isinstance(st, (ast.Import, ast.ImportFrom, ast.Global, ast.Nonlocal, ast.ClassDef)):
             return False
         if isinstance(st, ast.Match):
             from .model import desugar_match
@@ -897,6 +903,20 @@ class TaintInterp:
             x = fv.x
             if x[0] == "tucan":
                 return self.call_fn(x[1], args, kw, pc)
+            if x[0] == "closure":
+                return self.call_fn(x[1], args, kw, pc, closure_env=x[2])
+            if x[0] == "getter":
+                # itemgetter(k)(obj) / attrgetter(name)(obj): a keyed look-up into the argument
+                obj = args[0] if args else sc()
+                if obj.kind == "tuple" and len(x[2]) == 1 and x[2][0].kind == "const" and isinstance(x[2][0].x, int) and -len(obj.items) <= x[2][0].x < len(obj.items):
+                    return obj.items[x[2][0].x]
+                if obj.kind == "map":
+                    return obj.elem if obj.elem is not None else sc()
+                if obj.kind == "inst" and len(x[2]) == 1 and x[2][0].kind == "const" and x[2][0].x in obj.x[1]:
+                    return obj.x[1][x[2][0].x]
+                return sc(vt(obj))
+            if x[0] == "partial":
+                return self.call_value(x[1], list(x[2]) + list(args), {**x[3], **kw}, e, env, pc, fi)
             if x[0] == "ext":
                 if x[1].startswith("operator."):
                     return sc(frozenset().union(*[tt(a) for a in args]) if args else E)
@@ -981,6 +1001,79 @@ class TaintInterp:
             return seq(self.call_value(a[0], [el], {}, e, env, pc, fi), ot, a[1].oid)
         return add(sc(allt), self.src(UNSUM, fi, e, f"builtin {name}"))
 
+    @staticmethod
+    def _injective_key(fv: V) -> bool:
+        """can two different elements get the same sort key?  Decided for key functions of one parameter p whose every
+        return value is a tuple that contains p itself, or a tuple starting with a constant that no other path uses while
+        the path is taken for one value of p only (guard `p == CONST`)."""
+        if fv.kind != "func":
+            return False
+        x = fv.x
+        if x[0] == "lambda":
+            lam = x[1]
+            if len(lam.args.args) != 1:
+                return False
+            p_, paths = lam.args.args[0].arg, []
+
+            def split(expr, guards):
+                if isinstance(expr, ast.IfExp):
+                    split(expr.body, guards + [(expr.test, True)])
+                    split(expr.orelse, guards + [(expr.test, False)])
+                else:
+                    paths.append((guards, expr))
+            split(lam.body, [])
+        elif x[0] in ("closure", "tucan"):
+            fn = x[1].node
+            ps = [a_.arg for a_ in fn.args.args]
+            if len(ps) != 1:
+                return False
+            p_, paths = ps[0], []
+
+            def walk(stmts, guards):
+                """True if every path through stmts ends in a return"""
+                for i, st in enumerate(stmts):
+                    if isinstance(st, ast.Return):
+                        if st.value is None:
+                            return None
+                        paths.append((guards, st.value))
+                        return True
+                    if isinstance(st, ast.If):
+                        t1 = walk(st.body, guards + [(st.test, True)])
+                        t2 = walk(st.orelse, guards + [(st.test, False)]) if st.orelse else False
+                        if t1 is None or t2 is None:
+                            return None
+                        if t1 and t2:
+                            return True
+                        if t1 and not st.orelse:
+                            guards = guards + [(st.test, False)]
+                            continue
+                        return None
+                    if isinstance(st, ast.Expr) and isinstance(st.value, ast.Constant):
+                        continue
+                    return None
+                return False
+            if walk(fn.body, []) is not True:
+                return False
+        else:
+            return False
+        leads = []
+        for guards, expr in paths:
+            if not isinstance(expr, ast.Tuple) or not expr.elts:
+                return False
+            has_p = any(isinstance(z, ast.Name) and z.id == p_ for z in expr.elts)
+            if has_p and len(paths) == 1:
+                return True
+            lead = expr.elts[0]
+            if not isinstance(lead, ast.Constant):
+                return False
+            pinned = any(pol and any(isinstance(c, ast.Compare) and len(c.ops) == 1 and isinstance(c.ops[0], ast.Eq) and isinstance(c.left, ast.Name) and c.left.id == p_
+                                     and isinstance(c.comparators[0], ast.Constant) for c in ast.walk(t)) and not any(isinstance(b, ast.BoolOp) and isinstance(b.op, ast.Or) for b in ast.walk(t))
+                         for t, pol in guards)
+            if not (has_p or pinned):
+                return False
+            leads.append(lead.value)
+        return len(set(map(repr, leads))) == len(leads)
+
     def sorted_summary(self, a, kw, e, fi):
         src = a[0]
         key = kw.get("key")
@@ -1001,6 +1094,12 @@ class TaintInterp:
         if key is not None:
             # order = key values; ties keep the input order (stable sort)
             kv = self.call_value(key, [el], {}, e, {}, E, fi)
+            if self._injective_key(key):
+                # different elements never share a key: the result is ordered by the key values alone
+                return seq(el, tt(kv), ("sorted", id(e)))
+            if kv.kind == "tuple" and el.kind == "node" and any(i.kind == "node" for i in kv.items):
+                # the key ends in the element itself (a node label, unique): no two keys are equal, the input order plays no part
+                return seq(el, tt(kv), ("sorted", id(e)))
             return seq(el, tt(kv) | old_ot, ("sortedkey", id(e)))
         # order after sorting is decided by the values alone (equal values are interchangeable)
         return seq(el, vt(el), ("sorted", id(e)))
@@ -1089,6 +1188,50 @@ class TaintInterp:
             return mp(sc(vt(el)), ot, ("counter", id(e)), key=el)
         if q == "networkx.Graph":
             return self.graph()
+        if q in ("itertools.chain", "itertools.chain.from_iterable"):
+            # concatenation: the parts follow one another in argument order; inside a part its own order holds
+            parts = a
+            outer_ot = E
+            if q.endswith("from_iterable") and a:
+                inner, outer_ot = self.iterate(a[0], fi, e)
+                parts = [inner]
+            el, ot = None, set(outer_ot)
+            for x in parts:
+                ie, io = self.iterate(x, fi, e)
+                el = join(el, ie)
+                ot |= io
+            return seq(el, frozenset(ot) | pc, ("chain", id(e)))
+        if q == "itertools.count":
+            return seq(sc(allt), E, ("count", norm(e)))
+        if q in ("itertools.repeat",):
+            return seq(a[0] if a else sc(), E, ("repeat", id(e)))
+        if q in ("itertools.islice", "itertools.takewhile", "itertools.dropwhile", "itertools.filterfalse", "itertools.compress"):
+            src = a[0] if q != "itertools.takewhile" and q != "itertools.dropwhile" and q != "itertools.filterfalse" else (a[1] if len(a) > 1 else a[0])
+            el, ot = self.iterate(src, fi, e)
+            return seq(el, ot | (allt - tt(src)), ("slice", getattr(src, "oid", None), id(e)))
+        if q == "itertools.pairwise":
+            el, ot = self.iterate(a[0], fi, e)
+            return seq(tup([el, el]), ot, ("pairwise", id(e)))
+        if q in ("itertools.zip_longest",):
+            return self.zip_summary(a, e, fi)
+        if q == "itertools.accumulate":
+            el, ot = self.iterate(a[0], fi, e)
+            return seq(add(el, ot), ot, ("accumulate", id(e)))
+        if q in ("itertools.product", "itertools.permutations", "itertools.combinations"):
+            el, ot = None, set()
+            for x in a:
+                if x.kind in ("seq", "map", "graph", "nodeview", "tuple"):
+                    ie, io = self.iterate(x, fi, e)
+                    el = join(el, ie)
+                    ot |= io
+            return seq(tup([el or sc(), el or sc()]), frozenset(ot), ("product", id(e)))
+        if q in ("operator.itemgetter", "operator.attrgetter"):
+            return V("func", x=("getter", q, list(a)))
+        if q == "functools.partial" and a:
+            return V("func", x=("partial", a[0], list(a[1:]), dict(kw)))
+        if q == "functools.reduce" and len(a) >= 2:
+            el, ot = self.iterate(a[1], fi, e)
+            return sc(tt(el) | ot | (tt(a[2]) if len(a) > 2 else E))
         if q.startswith("operator."):
             return sc(allt)
         if q.startswith("random."):
